@@ -213,7 +213,7 @@ def ob_errors(timeout_ms):
         uid = SStr(z3.String("input_id"))
 
         def setup(it):
-            it.call_overrides["deterministic_proba"] = C12.proba_recorder
+            it.call_overrides["pyab_experiment.binning.binning:deterministic_proba"] = C12.proba_recorder
         run = api.run(api.call_module_function(BINNING, "deterministic_choice", [uid] + args, kwargs),
                       opts={"float_mode": "fp", "prune": False}, setup=setup)
         absorb(out, run)
@@ -237,7 +237,7 @@ def ob_errors(timeout_ms):
     uid = SStr(z3.String("input_id"))
 
     def setup2(it):
-        it.call_overrides["deterministic_proba"] = C12.proba_recorder
+        it.call_overrides["pyab_experiment.binning.binning:deterministic_proba"] = C12.proba_recorder
         it.call_overrides["bisect.bisect_right"] = lambda ctx, interp, a, k: 0
     run = api.run(api.call_module_function(BINNING, "deterministic_choice", [uid, pop, [w0, w1]], {}),
                   opts={"float_mode": "fp", "prune": False}, setup=setup2)
@@ -278,7 +278,7 @@ def ob_mutation(timeout_ms):
         uid = SStr(z3.String("input_id"))
 
         def setup(it):
-            it.call_overrides["deterministic_proba"] = C12.proba_recorder
+            it.call_overrides["pyab_experiment.binning.binning:deterministic_proba"] = C12.proba_recorder
         run = api.run(api.call_module_function(BINNING, "deterministic_choice", [uid] + args, kwargs),
                       opts={"float_mode": "fp", "prune": False}, setup=setup)
         absorb(out, run)
